@@ -282,7 +282,7 @@ def model_line(case):
 
 
 def whole_line(case):
-    return 'whole ' + c06.model_line(case)[len('prox '):]
+    return 'whole ' + c06.model_line(case)[len('proxd '):]
 
 
 # ----------------------------------------------------------------------------------------------
@@ -462,7 +462,7 @@ def check_cases(ctx, cases, pool, use_model=True):
                 ctx.violation('correspondence', 'halo depth: generated expression gives %r, binary64 evaluation of the '
                               'source expression %r' % (mpads, pads), dict(case, model_pads=mpads, py_pads=pads))
                 continue
-            c06.compare_model(ctx, case, gd, t[2] if len(t) > 2 else '', 'dask')
+            c06.compare_model(ctx, case, gd, t[2] if len(t) > 2 else '', 'dask', per=3)
 
 
 def model_search(ctx, n):
